@@ -38,6 +38,9 @@ for d in sorted(glob.glob("/verif/seeded/*/")):
            "miri-race": "MIRIFLAGS='-Zmiri-many-seeds=0..64 -Zmiri-preemption-rate=0.3' cargo +nightly miri test --offline "
                         "--test <zz_race demo> (the interleaving the change needs is found by Miri's seeded scheduler; the "
                         "author's single-threaded demonstration was neutralised by the later repair of D18)",
+           "race-native": "cargo test --offline --test <zz_race demo> (a native stress test over many rounds: the change needs a "
+                          "pull that passed the exhaustion check before a concurrent skip_to_end and reserves after it; the "
+                          "author's single-threaded demonstration was neutralised by the later repairs of D18/D21)",
            "script": "sh demo.sh <worktree>"}.get(mode, mode)
     meta = {
         "id": sid,
